@@ -285,7 +285,7 @@ fn run(ctx: &Ctx, rep: &Report) {
     // ---- (b)
     let dir = ctx.work_dir("signed");
     let mut rng = Rng::for_case(ctx.seed, "C02-b", 0);
-    let nbases = ctx.tier.pick(1, 3);
+    let nbases = ctx.tier.pick(1, 9);
     for (ki, key) in keys.iter().enumerate() {
         for bn in 0..nbases {
             let mut cfg = BuildCfg { name: format!("signed{bn}"), version: "1.0".into(), license: "MIT".into(), arch: "noarch".into(), summary: "signed package".into(), compression: Some((["none", "gzip", "zstd"][bn % 3].into(), 3)), source_date: Some(1_600_000_000), ..Default::default() };
@@ -334,7 +334,7 @@ fn run(ctx: &Ctx, rep: &Report) {
                 push(m, format!("payload bit {bitpos}"), &mut cases);
             }
             // multi-byte edits in header and payload
-            for _ in 0..ctx.tier.pick(500, 5000) {
+            for _ in 0..ctx.tier.pick(500, 20_000) {
                 let mut m = bytes.clone();
                 let n = 1 + rng.usize(6);
                 for _ in 0..n {
